@@ -55,6 +55,26 @@ theorem bind_isPanic {α β} {r : Res α} {f : α → Res β} :
 
 end Res
 
+/-- Run `f` on every element, stopping at the first non-ok result (a Go `for … { if err … return }`). -/
+def Res.allM {α} (f : α → Res Unit) : List α → Res Unit
+  | [] => .ok ()
+  | a :: rest => f a >>= fun _ => Res.allM f rest
+
+theorem Res.allM_ok {α} {f : α → Res Unit} {l : List α} (h : Res.allM f l = .ok ()) : ∀ a ∈ l, f a = .ok () := by
+  induction l with
+  | nil => intro a ha; cases ha
+  | cons x xs ih =>
+    simp only [Res.allM] at h
+    cases hx : f x with
+    | ok u =>
+      rw [hx] at h
+      intro a ha
+      cases ha with
+      | head => cases u; exact hx
+      | tail _ hm => exact ih h a hm
+    | err t => rw [hx] at h; cases h
+    | panic s => rw [hx] at h; cases h
+
 /-- `if c then err` guard. -/
 @[inline] def guardErr (c : Bool) (tag : String) : Res Unit := if c then .err tag else .ok ()
 
@@ -99,7 +119,9 @@ def stringOfHex (s : String) : Option String := do
 
 /-! ### decimal -/
 
-def digitChar (n : Nat) : Char := Char.ofNat (48 + n)
+def digitChar : Nat → Char
+  | 0 => '0' | 1 => '1' | 2 => '2' | 3 => '3' | 4 => '4'
+  | 5 => '5' | 6 => '6' | 7 => '7' | 8 => '8' | _ => '9'
 
 /-- Decimal digits of `n`, most significant first (`toDigitsAux` with explicit fuel). -/
 def natDigitsAux : Nat → Nat → List Char → List Char
@@ -120,6 +142,9 @@ def intToDec (i : Int) : String :=
 def isDigit (c : Char) : Bool := '0' ≤ c && c ≤ '9'
 
 def digitVal (c : Char) : Nat := c.toNat - 48
+
+/-- Length in bytes of the UTF-8 encoding (Go's `len(s)`). -/
+def byteLen (s : String) : Nat := (s.toList.map Char.utf8Size).foldl (· + ·) 0
 
 /-- Value of a list of decimal digit characters (no validation). -/
 def decVal (cs : List Char) : Nat := cs.foldl (fun acc c => acc * 10 + digitVal c) 0
